@@ -86,6 +86,19 @@ theorem div_lt_of_lt_mul {o cs L : Nat} (hcs : 0 < cs) (h : o < L * cs) : o / cs
 def dirFile (f0 : FileH) (chain : List Nat) (cs o : Nat) : FileH :=
   { f0 with offset := o, currentCluster := if o = 0 then none else chain[(o - 1) / cs]? }
 
+/-- the part of `ChainDir` that reading, seeking and writing through the handle need (everything except that the
+    handle's entry has nothing to write back) -/
+structure ChainCore (d : Dev) (f0 : FileH) (c0 : Nat) (chain : List Nat) : Prop where
+  failAt : d.failAt = none
+  geo : Geo d.fs d.img.size
+  first : f0.firstCluster = some c0
+  link : Chain (tabView d.fs d.img) c0 chain
+  inTab : ∀ c ∈ chain, 2 ≤ c ∧ c < d.fs.totalClusters + 2
+  nosize : f0.size? = none
+  noacc : d.fs.accDate = false ∨ f0.entry = none
+  cs32 : d.fs.clusterSize % 32 = 0
+  u32 : chain.length * d.fs.clusterSize < 4294967296
+
 /-- a cluster-chain directory readable on `d`: no fault scheduled, layout `Geo`, the chain of `c0` in the decoded FAT
     of the image lies inside the table; the handle has no size (a directory), its entry (if any) has nothing to write
     back, and reads do not stamp it (`update_accessed_date` off, or no entry: the root of FAT32) -/
@@ -100,6 +113,16 @@ structure ChainDir (d : Dev) (f0 : FileH) (c0 : Nat) (chain : List Nat) : Prop w
   clean : ∀ e, f0.entry = some e → e.dirty = false
   cs32 : d.fs.clusterSize % 32 = 0
   u32 : chain.length * d.fs.clusterSize < 4294967296
+
+theorem ChainDir.core {d : Dev} {f0 : FileH} {c0 : Nat} {chain : List Nat} (C : ChainDir d f0 c0 chain) :
+    ChainCore d f0 c0 chain :=
+  ⟨C.failAt, C.geo, C.first, C.link, C.inTab, C.nosize, C.noacc, C.cs32, C.u32⟩
+
+theorem ChainCore.of_sameVol {d d1 : Dev} {f0 : FileH} {c0 : Nat} {chain : List Nat} (C : ChainCore d f0 c0 chain)
+    (hv : SameVol d d1) : ChainCore d1 f0 c0 chain :=
+  ⟨by rw [hv.failAt]; exact C.failAt, by rw [hv.fs, hv.img]; exact C.geo, C.first, by rw [hv.fs, hv.img]; exact C.link,
+   by rw [hv.fs]; exact C.inTab, C.nosize, by rw [hv.fs]; exact C.noacc, by rw [hv.fs]; exact C.cs32,
+   by rw [hv.fs]; exact C.u32⟩
 
 theorem ChainDir.of_sameVol {d d1 : Dev} {f0 : FileH} {c0 : Nat} {chain : List Nat} (C : ChainDir d f0 c0 chain)
     (hv : SameVol d d1) : ChainDir d1 f0 c0 chain :=
@@ -120,12 +143,12 @@ variable {d : Dev} {f0 : FileH} {c0 : Nat} {chain : List Nat}
 
 theorem dirFile_size? (cs o : Nat) : (dirFile f0 chain cs o).size? = f0.size? := rfl
 
-theorem ChainDir.head (C : ChainDir d f0 c0 chain) : chain[0]? = some c0 := by
+theorem ChainCore.head (C : ChainCore d f0 c0 chain) : chain[0]? = some c0 := by
   obtain ⟨t, ht⟩ := chain_head C.link
   rw [ht]; rfl
 
 /-- the cluster `File::read` selects at `o`: the `o / cs`-th of the chain, if any -/
-theorem ChainDir.curOpt (C : ChainDir d f0 c0 chain) (o : Nat) (ho : o ≤ chain.length * d.fs.clusterSize) :
+theorem ChainCore.curOpt (C : ChainCore d f0 c0 chain) (o : Nat) (ho : o ≤ chain.length * d.fs.clusterSize) :
     ∃ d1, run (if o % d.fs.clusterSize = 0 then (dirFile f0 chain d.fs.clusterSize o).boundaryCluster
                else pure (dirFile f0 chain d.fs.clusterSize o).currentCluster) d =
       (.ok chain[o / d.fs.clusterSize]?, d1) ∧ SameStore d d1 := by
@@ -158,7 +181,7 @@ theorem ChainDir.curOpt (C : ChainDir d f0 c0 chain) (o : Nat) (ho : o ≤ chain
 
 /-- **one `File::read` on a cluster-chain directory**: the bytes of the image from the stream position to the end of
     the cluster (at most `n`), nothing at the end of the chain -/
-theorem ChainDir.file_read (C : ChainDir d f0 c0 chain) (o n : Nat) (ho : o ≤ chain.length * d.fs.clusterSize) :
+theorem ChainCore.file_read (C : ChainCore d f0 c0 chain) (o n : Nat) (ho : o ≤ chain.length * d.fs.clusterSize) :
     Evals ((dirFile f0 chain d.fs.clusterSize o).read n) d
       (d.img.read (chainSrc d.fs chain o) (min n (chainRoom d.fs chain o)),
        dirFile f0 chain d.fs.clusterSize (o + min n (chainRoom d.fs chain o))) := by
@@ -231,6 +254,13 @@ theorem ChainDir.file_read (C : ChainDir d f0 c0 chain) (o n : Nat) (ho : o ≤ 
           simp only [he, hacc, Bool.false_eq_true, if_false]
           rw [hnew _ he]; exact ⟨_, rfl, hstore⟩
       · simp only [hnone]; rw [hnew _ hnone]; exact ⟨_, rfl, hstore⟩
+
+theorem ChainDir.head (C : ChainDir d f0 c0 chain) : chain[0]? = some c0 := C.core.head
+
+theorem ChainDir.file_read (C : ChainDir d f0 c0 chain) (o n : Nat) (ho : o ≤ chain.length * d.fs.clusterSize) :
+    Evals ((dirFile f0 chain d.fs.clusterSize o).read n) d
+      (d.img.read (chainSrc d.fs chain o) (min n (chainRoom d.fs chain o)),
+       dirFile f0 chain d.fs.clusterSize (o + min n (chainRoom d.fs chain o))) := C.core.file_read o n ho
 
 end chain
 
